@@ -498,7 +498,10 @@ class HistoryGen:
             return ("unregf", rng.choice(list(m.ftasks)))
         if kind == "regk":
             d1 = [l for l in spec.leaves if len(l) == 2]
-            srcs = [l for l in d1 if l not in m.ft_target and l not in m.kn_target]
+            # the source may sit inside a nested container: the knob is booked under that element alone (it declares
+            # {source}, not the enclosing containers), and an assignment to the element must still find it
+            spool = spec.leaves if rng.random() < 0.4 else d1
+            srcs = [l for l in spool if l not in m.ft_target and l not in m.kn_target]
             tars = [l for l in d1 if l in free and spec.leaf_type[l] == "f" and l not in m.defs]
             if not srcs or not tars:
                 return None
